@@ -209,7 +209,16 @@ impl Function {
 
         let mut post_call = if self.moves_self {
             if cpp_mode {
-                format!("    mem_forget({}container);\n", this_access)
+                format!(
+                    "    mem_forget({}container);\n{}",
+                    this_access,
+                    // Release the context clone that was kept alive across the call
+                    if self.calls_vtbl {
+                        "    mem_drop(std::move(___ctx));\n"
+                    } else {
+                        ""
+                    }
+                )
             } else if context.2 && self.calls_vtbl {
                 format!("    ctx_{}_drop(&___ctx);\n", context.1.to_lowercase())
             } else {
